@@ -194,6 +194,16 @@ type frame struct {
 	unwind   bool                // this frame is running its defers because of a panic
 	genDepth int
 	inPanicD bool // deferred call started while panicking (recover() is live here)
+	loopSnap map[*ssa.BasicBlock]map[string]*Sym // constant-valued cells when the loop header was first entered
+	loopInv  map[*ssa.BasicBlock][]loopInvariant // candidate invariants assumed for the generalised iteration
+}
+
+// loopInvariant: cell `key` holds constant c at every arrival at the loop header (assumed for the
+// generalised iteration, verified when the path returns to the header; refuted candidates are dropped
+// and the enumeration restarts).
+type loopInvariant struct {
+	addr *Sym
+	c    *Sym
 }
 
 type evNode struct {
@@ -217,12 +227,14 @@ type state struct {
 }
 
 type Tracer struct {
-	c      *Ctx
-	cfg    TraceConfig
-	entry  *ssa.Function
-	traces []*Trace
-	over   bool
-	params []*Sym
+	c       *Ctx
+	cfg     TraceConfig
+	entry   *ssa.Function
+	traces  []*Trace
+	over    bool
+	params  []*Sym
+	badInv  map[string]bool // refuted candidate invariants: header block + cell key
+	restart bool
 }
 
 func (st *state) clone() *state {
@@ -238,6 +250,18 @@ func (st *state) clone() *state {
 		nf.loopGen = make(map[*ssa.BasicBlock]int, len(f.loopGen))
 		for k, v := range f.loopGen {
 			nf.loopGen[k] = v
+		}
+		if f.loopSnap != nil {
+			nf.loopSnap = make(map[*ssa.BasicBlock]map[string]*Sym, len(f.loopSnap))
+			for k, v := range f.loopSnap {
+				nf.loopSnap[k] = v // snapshots are immutable once taken
+			}
+		}
+		if f.loopInv != nil {
+			nf.loopInv = make(map[*ssa.BasicBlock][]loopInvariant, len(f.loopInv))
+			for k, v := range f.loopInv {
+				nf.loopInv[k] = v
+			}
 		}
 		n.frames[i] = &nf
 	}
@@ -312,7 +336,23 @@ func (c *Ctx) Trace(fn *ssa.Function, cfg TraceConfig) ([]*Trace, bool) {
 	if cfg.MaxSteps == 0 {
 		cfg.MaxSteps = 20000
 	}
-	tr := &Tracer{c: c, cfg: cfg, entry: fn}
+	tr := &Tracer{c: c, cfg: cfg, entry: fn, badInv: map[string]bool{}}
+	for round := 0; round < 6; round++ {
+		tr.traces, tr.over, tr.restart, tr.params = nil, false, false, nil
+		tr.runFrom(fn)
+		if !tr.restart {
+			break
+		}
+	}
+	c.stat("traces", len(tr.traces))
+	c.stat("trace_entries", 1)
+	for _, t := range tr.traces {
+		c.stat("trace_events", len(t.Events))
+	}
+	return tr.traces, !tr.over && !tr.restart
+}
+
+func (tr *Tracer) runFrom(fn *ssa.Function) {
 	st := &state{store: map[string]*cell{}, facts: map[string]bool{}, eqc: map[string]*Sym{}, nec: map[string][]*Sym{}, escaped: map[int]bool{}}
 	fr := &frame{fn: fn, block: fn.Blocks[0], regs: map[ssa.Value]*Sym{}, loopGen: map[*ssa.BasicBlock]int{}}
 	for _, p := range fn.Params {
@@ -325,12 +365,6 @@ func (c *Ctx) Trace(fn *ssa.Function, cfg TraceConfig) ([]*Trace, bool) {
 	}
 	st.frames = []*frame{fr}
 	tr.run(st)
-	c.stat("traces", len(tr.traces))
-	c.stat("trace_entries", 1)
-	for _, t := range tr.traces {
-		c.stat("trace_events", len(t.Events))
-	}
-	return tr.traces, !tr.over
 }
 
 func (tr *Tracer) finish(st *state, end EndKind, ret []*Sym) {
